@@ -46,6 +46,9 @@ func extractLagStates(states data.ND1Float64) []float64 {
 
 func packLagStates(lagged []float64) data.ND2Float64 {
 	result := data.NewArray2DFloat64(1, len(lagged))
+	for i, v := range lagged {
+		result.Set2(0, i, v)
+	}
 	return result
 }
 
